@@ -37,6 +37,33 @@ def exc_ctor_map(repo, name):
     return params, out
 
 
+OCTET_SAMPLES = (0, 1, 2, 3, 7, 127, 128, 254, 255)
+
+
+def _octet_domain(repo, hier, ev, fi, params, what):
+    """the fields of A-ASSOCIATE-RJ / A-ABORT are one octet each (PS3.8 9.3.4, 9.3.8): with every parameter at a sample of 0..255
+    (both ends included) the method raises nothing of its own and queues exactly one PDU carrying those values -- a validation
+    added in front of the PDU must not refuse, clamp or replace a value the octet can carry"""
+    out = []
+    for v in OCTET_SAMPLES:
+        c = SymClient(repo, fi, event_of=ev, hierarchy=hier, inline=repo.is_helper)
+        fin = c.final_states(c.run(empty_state({p_: str(v) for p_ in params})))
+        for s_, how in fin:
+            if how.startswith('raise'):
+                out.append('%s(%s) raises %s: %d is a value the octet can carry'
+                           % (what, ', '.join(str(v) for _ in params), how.split(':', 1)[-1], v))
+        for e_, s_ in c.log:
+            if e_.kind == 'dul.send' and e_.args and is_token(e_.args[0]):
+                fl = e_.fields(e_.args[0])
+                got = [fl.get(k_) for k_ in ('@result', '@source', '@reason_diag') if k_ in fl]
+                carried = [g_ for g_ in got if g_ is not None]
+                if what == 'reject' and carried != [str(v)] * 3:
+                    out.append('reject(%d, %d, %d) sends A-ASSOCIATE-RJ%s' % (v, v, v, tuple(carried)))
+                if what == 'abort' and fl.get('@reason_diag') != str(v):
+                    out.append('abort(%d) sends A-ABORT with reason %s' % (v, fl.get('@reason_diag')))
+    return sorted(set(out))[:4]
+
+
 def run(repo, rep):
     from ..pitfalls import memo_rule as _memo_rule
     _memo_rule(repo, rep, 'C14', 'C14.Z1')
@@ -180,8 +207,9 @@ def run(repo, rep):
         elif [fl.get('@result'), fl.get('@source'), fl.get('@reason_diag')] != p[:3]:
             probs.append('A-ASSOCIATE-RJ built with result=%s source=%s reason=%s from parameters %s'
                          % (fl.get('@result'), fl.get('@source'), fl.get('@reason_diag'), p))
+    probs += _octet_domain(repo, hier, ev, rj, p[:3], 'reject')
     rep.check(not probs, 'C14.J1', 'asceprovider:AssociationAcceptor.reject:pdu-fields', rj.loc(),
-              'A-ASSOCIATE-RJ(result, source, reason) from the parameters in order', '; '.join(probs))
+              'A-ASSOCIATE-RJ(result, source, reason) from the parameters in order, for every octet value', '; '.join(probs))
     # J1c / J2: _handle_errors
     he = base.find_method('_handle_errors')
     rep.analysed(he)
@@ -255,6 +283,7 @@ def run(repo, rep):
                 if fl.get('@source') != src_want:
                     pa.append('A-ABORT source is %s, expected %s (%s)' % (fl.get('@source'), src_want,
                               'service-provider' if src_want == '2' else 'service-user'))
+        pa += _octet_domain(repo, hier, ev, af, af.params[1:2], 'abort')
         if not kl:
             pa.append('abort() does not stop the association')
         elif snd and kl[0][0].line < snd[0][0].line:
